@@ -178,6 +178,16 @@ GCreateS(S) == [Alloc(S, COwner, "cache") EXCEPT !.cache = TRUE]       \* create
 (* thaw (+ freeze again): when the table is fuller than its high-water mark the least recently used glyphs *)
 (* are evicted.  Which ones is property C17's business; here any subset may go, each completely.          *)
 GThawSucc(S) == {GDropAll(S, E) : E \in SUBSET S.glyphs}
+(* The thresholds an outermost thaw compares the table with (g live glyphs, t tombstones, high- and low-water   *)
+(* mark H, L): the situations in which it releases nothing, evicts down to L, dumps / rebuilds a table in which *)
+(* tombstones dominate -- with few or with many live glyphs.  Whatever it does in each of them, every copy it    *)
+(* lets go is released exactly once and completely (GThawSucc); the generator (LifeGen, pressure mode) walks    *)
+(* all of them and the trace specification reports which one every recorded thaw was in.                        *)
+GPressureClasses == {"below", "evict", "settled", "dump", "dump_over"}
+GPressure(g, t, H, L) ==
+    IF g + t <= H THEN "below"
+    ELSE IF t > H THEN (IF g > L THEN "dump_over" ELSE "dump")
+    ELSE IF g > L THEN "evict" ELSE "settled"
 GDestroyS(S) ==                   \* thaw + destroy: every copy and the cache itself are released
     LET S1 == GDropAll(S, IF "cache_destroy_leaks_glyphs" \in Bugs THEN {} ELSE S.glyphs) IN
     [Free(S1, COwner, "cache") EXCEPT !.cache = FALSE, !.glyphs = {}]
@@ -224,7 +234,7 @@ LifeCalls(S) ==
     \cup {Call("clip", i, 0, v) : i \in A, v \in 0..2}
     \cup {Call("destroyfn", i, 0, v) : i \in A, v \in 0..2}
     \cup {Call("use", i, 0, 0) : i \in A}
-    \cup (IF ~S.cache THEN {Call("gcreate", 0, 0, 0)}
+    \cup (IF ~S.cache THEN {Call("gcreate", 0, 0, v) : v \in 0..1}      \* v: how the driver picks concrete keys
           ELSE      {Call("ginsert", i, k, 0) : i \in {x \in A : IsBits(S.kind[x])}, k \in GKeys \ S.glyphs}
                \cup {Call("gbad", 0, k, 0) : k \in GKeys \ S.glyphs}
                \cup {Call("gremove", 0, k, 0) : k \in GKeys}
@@ -329,13 +339,27 @@ LifeOutputOK(S, c) ==
 (*   d   dither     0 none, 1, 2;  dof dither offset (x, y) = (v % 3, v / 3), as for ao           *)
 (*   ma  accessors of alpha-map image A: 0 / 1 (a property of the attached image that the         *)
 (*       holder's validate must pick up)                                                          *)
-PropNames == {"t", "f", "r", "c", "sc", "cc", "am", "ao", "ca", "acc", "pal", "d", "dof", "ma"}
+(* CALLER-OWNED STORAGE the image refers to but does not copy.  These are not setters: the client *)
+(* writes into its own memory, the library is not told.  The contents are part of what the image  *)
+(* currently is ("current properties and pixels"), so a fresh replica referring to the same      *)
+(* contents is the reference; nothing the library derived earlier may depend on the old contents. *)
+(*   pe  contents of the client's palettes (pixman_image_set_indexed stores the pointer only):    *)
+(*       0 every entry opaque, 1 one USED entry translucent, 2 that entry another opaque colour,  *)
+(*       3 every entry translucent                                                                *)
+(*   px  contents of the client's pixel buffer: 0 the initial (arbitrary) pixels, 1 the same with *)
+(*       every alpha opaque, 2 as 1 with the first pixels translucent, 3 all zero (transparent),  *)
+(*       4 all opaque, other colours (the colour change of a 1x1 repeating image)                 *)
+(* (Matrices, filter parameters and gradient stops ARE copied by their setters; the drivers       *)
+(* overwrite the arrays they passed right after the call returned, which must have no effect.)    *)
+PropNames == {"t", "f", "r", "c", "sc", "cc", "am", "ao", "ca", "acc", "pal", "d", "dof", "ma", "pe", "px"}
+MemNames == {"pe", "px"}            \* client memory edited in place: no library call is involved
 PropRange(n) ==
     CASE n = "t" -> 0..21 [] n = "f" -> 0..17 [] n = "r" -> 0..3 [] n = "c" -> 0..15
       [] n = "am" -> 0..4 [] n = "ao" -> 0..8 [] n = "pal" -> 1..3 [] n = "d" -> 0..2 [] n = "dof" -> 0..8
+      [] n = "pe" -> 0..3 [] n = "px" -> 0..4
       [] OTHER -> 0..1
 Defaults == [t |-> 0, f |-> 0, r |-> 0, c |-> 0, sc |-> 0, cc |-> 0, am |-> 0, ao |-> 0, ca |-> 0, acc |-> 0,
-             pal |-> 0, d |-> 0, dof |-> 0, ma |-> 0]
+             pal |-> 0, d |-> 0, dof |-> 0, ma |-> 0, pe |-> 0, px |-> 0]
 
 (* the fields of a compound value, in the order in which they lie in memory *)
 FilterFields(v) ==      \* kind, width, height, first / a middle / last coefficient (symbols)
@@ -383,11 +407,21 @@ FilterKind(f) == Fields("f", f)[1]
 (* the alpha map;                                                                               *)
 (* property_changed sets up the accessor functions (bits) or the sentinel stops (gradients,     *)
 (* from repeat); validate recurses into the alpha map.                                          *)
+(* Nothing validate derives may be computed from memory the image does not own (the client can   *)
+(* change it without a call).  The two wrong designs: "an indexed image whose palette is opaque   *)
+(* has opaque samples" / "an image whose pixels are all opaque is opaque", remembered in flags.   *)
+PalOpaque(pe) == pe \in {0, 2}
+PixOpaque(px) == px \in {1, 4}
+MemDerived(type, st) ==
+    IF "derive_reads_palette" \in Bugs /\ type = "indexed" THEN (IF PalOpaque(st.pe) THEN 1 ELSE 0)
+    ELSE IF "derive_reads_pixels" \in Bugs /\ type \in {"bits", "indexed"} THEN (IF PixOpaque(st.px) THEN 1 ELSE 0)
+    ELSE 0
 MapClass(am) == IF am = 0 THEN 0 ELSE IF am = 3 THEN 2 ELSE 1     \* none / narrow format / wide format
 Derive(type, st) ==
     [t |-> st.t, fk |-> FilterKind(st.f), r |-> st.r, ca |-> st.ca,
      acc |-> IF type \in {"bits", "indexed"} THEN st.acc ELSE 0,
      am |-> MapClass(st.am),
+     mem |-> MemDerived(type, st),
      sentinel |-> IF type = "gradient" THEN st.r ELSE 0]
 
 PropInit(type) ==
@@ -424,11 +458,13 @@ EarlyReturn(P, n, v) ==
 
 MarksDirty(P, n) ==
     /\ n # "cc"                          \* set_has_client_clip: nothing derived depends on it
+    /\ n \notin MemNames                 \* the client wrote into its own memory: the image cannot know
     /\ ("nodirty_" \o n) \notin Bugs
 
 Applicable(type, n) ==
     CASE n \in {"acc", "d", "dof"} -> type \in {"bits", "indexed"}    \* no-ops on other types: not generated
-      [] n = "pal" -> type = "indexed"
+      [] n \in {"pal", "pe"} -> type = "indexed"
+      [] n = "px" -> type \in {"bits", "indexed"}
       [] OTHER -> TRUE
 
 (* a setter call: [op |-> "set", i |-> 0, j |-> name, v |-> value] (Call("set", 0, name, v)) *)
